@@ -42,12 +42,27 @@ package wkb
 //@   requires registryOK() && mapHas(wkbReaders, k)
 //@   ensures wkbReaders[k] != nil
 
+// The registry as init builds it: exactly the seven OGC type codes, each bound to its reader.
+//@ func init#1
+//@   prop C05, C07
+//@   mode ufloat
+//@   ensures [point] mapHas(wkbReaders, 1) && wkbReaders[1] == pointReader
+//@   ensures [linestring] mapHas(wkbReaders, 2) && wkbReaders[2] == lineStringReader
+//@   ensures [polygon] mapHas(wkbReaders, 3) && wkbReaders[3] == polygonReader
+//@   ensures [multipoint] mapHas(wkbReaders, 4) && wkbReaders[4] == multiPointReader
+//@   ensures [multilinestring] mapHas(wkbReaders, 5) && wkbReaders[5] == multiLineStringReader
+//@   ensures [multipolygon] mapHas(wkbReaders, 6) && wkbReaders[6] == multiPolygonReader
+//@   ensures [geometrycollection] mapHas(wkbReaders, 7) && wkbReaders[7] == geometryCollectionReader
+//@   ensures [no_other_codes] forall k uint32 :: mapHas(wkbReaders, k) ==> 1 <= k && k <= 7
+//@   ensures [none_is_nil] forall k uint32 :: mapHas(wkbReaders, k) ==> wkbReaders[k] != nil
+
 //@ functype wkbReader
 //@   mode ufloat
 //@   opt writes=geom.Point,geom.Path,geom.LineString,geom.Polygon,geom.Geom,uint32,float64,alloc
 //@   requires [nonnil] self != nil
 //@   requires [reader] typeof(arg0) != nil && typeof(arg1) != nil
 //@   requires [registry] registryOK()
+//@   ensures [geometry_or_error] result1 == nil ==> typeof(result0) != nil
 //@   modifies ghost(arg0, "pos")
 
 //@ func Read
@@ -57,6 +72,7 @@ package wkb
 //@   opt callwrites=declared
 //@   requires [reader] typeof(r) != nil
 //@   requires [registry] registryOK()
+//@   ensures [geometry_or_error] result1 == nil ==> typeof(result0) != nil
 //@   ensures_assumed [reads_back_point] old(ghost(r, "pos")) >= 0 && old(ghost(r, "pos")) + 2 < ghost(r, "n") && old(wfPointEnc(objOf(r), ghost(r, "pos"))) ==> result1 == nil && typeof(result0) == geom.Point && tokSamePt(result0.(geom.Point), tokPt(ghostAt(r, "tok", old(ghost(r, "pos")) + 2))) && ghost(r, "pos") == old(ghost(r, "pos")) + 3
 //@   ensures_assumed [reads_back_linestring] old(ghost(r, "pos")) >= 0 && old(ghost(r, "pos")) + 3 < ghost(r, "n") && old(wfLineEnc(objOf(r), ghost(r, "pos"))) ==> result1 == nil && typeof(result0) == geom.LineString && runAt(objOf(r), old(ghost(r, "pos")) + 3, old(tokU(ghostAt(r, "tok", ghost(r, "pos")))), result0.(geom.LineString)) && ghost(r, "pos") == old(ghost(r, "pos")) + 4
 //@   ensures_assumed [reads_back_polygon] old(ghost(r, "pos")) >= 0 && old(wfPolyEnc(objOf(r), ghost(r, "pos"))) && old(ghost(r, "pos") + 2 + 2 * tokU(ghostAt(r, "tok", ghost(r, "pos") + 2)) < ghost(r, "n")) ==> result1 == nil && typeof(result0) == geom.Polygon && len(result0.(geom.Polygon)) == old(tokU(ghostAt(r, "tok", ghost(r, "pos") + 2))) && (forall k int :: 0 <= k && k < len(result0.(geom.Polygon)) ==> runAt(objOf(r), old(ghost(r, "pos")) + 4 + 2 * k, old(tokU(ghostAt(r, "tok", ghost(r, "pos")))), result0.(geom.Polygon)[k])) && ghost(r, "pos") == old(ghost(r, "pos")) + 3 + 2 * len(result0.(geom.Polygon))
